@@ -59,6 +59,7 @@ fn main() {
         "origin-text" => guarded(move || rpid::origin_text(&arg)),
         "ctap-map" => guarded(move || ctapmap::run(&arg)),
         "psl-enumerate" => guarded(move || pslenum::run(&arg)),
+        "psl-rules" => guarded(move || pslenum::emit_rules(&arg)),
         "hid-packets" => guarded(move || hid::packets_no_panic(&arg)),
         "hid-roundtrip" => guarded(move || hid::roundtrip(&arg)),
         _ => (false, false, format!("unknown entry {entry}")),
